@@ -186,7 +186,7 @@ pub struct RespInfo {
 
 fn u64le(b: &[u8]) -> u64 {
     let mut a = [0u8; 8];
-    a.copy_from_slice(b);
+    a.copy_from_slice(&b[..8]);
     u64::from_le_bytes(a)
 }
 fn u32le(b: &[u8]) -> u32 {
@@ -231,7 +231,9 @@ fn parse_response(proto: Proto, resp: &[u8], strict: bool) -> Result<(RespInfo, 
     if sig.len() != 64 {
         return Err("SIG-size".into());
     }
-    if indx.len() != 4 {
+    // lenient: fixed-width numbers are read from the first bytes of the value (longer values tolerated)
+    let bad = |len: usize, want: usize| if strict { len != want } else { len < want };
+    if bad(indx.len(), 4) {
         return Err("INDX-size".into());
     }
     let srep = Msg::decode_any(&srep_b).map_err(|e| format!("srep-decode:{:?}", e))?;
@@ -245,13 +247,13 @@ fn parse_response(proto: Proto, resp: &[u8], strict: bool) -> Result<(RespInfo, 
     let pubk = dele.get(rc::PUBK).ok_or("no-PUBK")?.to_vec();
     let mint = dele.get(rc::MINT).ok_or("no-MINT")?.to_vec();
     let maxt = dele.get(rc::MAXT).ok_or("no-MAXT")?.to_vec();
-    if pubk.len() != 32 || mint.len() != 8 || maxt.len() != 8 {
+    if pubk.len() != 32 || bad(mint.len(), 8) || bad(maxt.len(), 8) {
         return Err("DELE-field-size".into());
     }
     let midp = srep.get(rc::MIDP).ok_or("no-MIDP")?.to_vec();
     let radi = srep.get(rc::RADI).ok_or("no-RADI")?.to_vec();
     let root = srep.get(rc::ROOT).ok_or("no-ROOT")?.to_vec();
-    if midp.len() != 8 || radi.len() != 4 {
+    if bad(midp.len(), 8) || bad(radi.len(), 4) {
         return Err("SREP-field-size".into());
     }
     let ver = srep.get(rc::VER).and_then(|v| if v.len() == 4 { Some(u32le(v)) } else { None });
